@@ -22,16 +22,18 @@ CFG = dict(
                        "thorough": "complete for all pairs of u8, s8, packed<1..12>, uint16_t (2^32), int16_t (2^32) and every invert "
                                    "operand of <=16-bit models; packed<13..16>, 32-bit, packed 24/31, float32/64 stratified (grid + 2^24 seeded pairs)"},
     types=["uint8_t", "int8_t", "uint16_t", "int16_t", "uint32_t", "int32_t", "float32_t", "float64_t",
-           "packed_channel_value<N> N=1..16,24,31", "packed_channel_reference<u8|u16|u32,...> as arguments",
+           "packed_channel_value<N> N=1..16,24,31",
+           "invert only: scoped_channel_value<uint8_t,16,235>, <uint16_t,4096,61439>, <int16_t,-1000,3000>, <float,1,2>, <double,-0.5,0.5>", "packed_channel_reference<u8|u16|u32,...> as arguments",
            "packed_dynamic_channel_reference<u8|u16|u32,...> as arguments"],
     assumptions=["exact oracle computed in 64-bit / __int128 integers, long double and fma residuals",
                  "signed models are judged after the documented shift x - min to the unsigned range (as the property states)",
                  "float tolerance: 2 ulp of the result for multiply; invert == 1-x as computed in the channel's own type, involution within epsilon",
+                 "custom-range (scoped_channel_value) models are judged for channel_invert only; multiply's shift rule is documented for signed integers only",
                  "32-bit, packed<13..16,24,31> and float operands are sampled (ends, powers of two, lattice, seeded), not complete",
                  "the ASan build runs the quick-tier bounds in both tiers (all pairs only for <=8-bit models)"],
     tus=[tu("c07_native", "harness/c07_channel_multiply_invert.cpp", "native"),
          tu("c07_asan", "harness/c07_channel_multiply_invert.cpp", "asan", extra=FCO)],
-    runs=[run("c07_native", shards=16, min_cases={"quick": 294, "thorough": 728}),
-          run("c07_asan", shards=16, min_cases={"quick": 294, "thorough": 294}, secondary=True)],
-    require_obs=["mul.all-pairs.u8", "mul.all-pairs.s8", "mul.all-pairs.p8", "mul.grid.f32", "inv.s16", "inv.f32", "ref.pdyn<u16,6>@7"],
+    runs=[run("c07_native", shards=16, min_cases={"quick": 299, "thorough": 733}),
+          run("c07_asan", shards=16, min_cases={"quick": 299, "thorough": 299}, secondary=True)],
+    require_obs=["inv.video8", "inv.studio16", "inv.float12", "inv.doublehalf", "mul.all-pairs.u8", "mul.all-pairs.s8", "mul.all-pairs.p8", "mul.grid.f32", "inv.s16", "inv.f32", "ref.pdyn<u16,6>@7"],
 )
